@@ -42,7 +42,7 @@ func lookupReasonSite(table []siteReason, fns []string, kind string, exprs []str
 			if i := strings.Index(rb, "$"); i >= 0 {
 				rb = rb[:i] // a reason naming a function literal also covers its enclosing function's other literals
 			}
-			if strings.HasSuffix(fn, r.fn) || strings.HasSuffix(fn, rb) || (strings.HasSuffix(r.fn, ".") && strings.HasPrefix(fn, r.fn)) {
+			if strings.HasSuffix(fn, r.fn) || strings.HasSuffix(fn, rb) || (strings.HasSuffix(r.fn, ".") && strings.HasPrefix(strings.TrimLeft(fn, "(*"), r.fn)) {
 				okF = true // a reason may name a function (suffix) or a whole package ("mpc/ps.")
 			}
 		}
